@@ -8,6 +8,7 @@ import MdwModel.Driver.C01
 import MdwModel.Driver.C19
 import MdwModel.Driver.C11
 import MdwModel.Driver.C03
+import MdwModel.Driver.C02
 import MdwModel.Driver.C18
 import MdwModel.Driver.LiveProps
 import MdwModel.Model.Records
@@ -50,6 +51,7 @@ def dispatch (prop : String) (kv : List (String × String)) : IO Res := do
   | "C19" => C19.run kv
   | "C11" => C11.run kv
   | "C03" => C03.run kv
+  | "C02" => C02.run kv
   | "C18" => C18.run kv
   | "C05" => match get kv "kind" with
     | some "uctx" => return LiveProps.runUctx kv
